@@ -220,7 +220,9 @@ def _coq_make_property(targets, timeout, clean, t0):
         if common:
             run(["timeout", str(timeout), "make", "-j8"] + common, cwd=COQ, timeout=timeout + 30)
     with CoqLock(_lock_name(targets)):
-        rc, so, se, dt = run(["timeout", str(timeout), "make", "-j16"] + list(targets), cwd=COQ, timeout=timeout + 30)
+        # -k: a proof file that no longer compiles must not keep the independent targets (Cnn_Check.vo,
+        # which the search for a failing input needs) from being rebuilt; rc stays non-zero.
+        rc, so, se, dt = run(["timeout", str(timeout), "make", "-k", "-j16"] + list(targets), cwd=COQ, timeout=timeout + 30)
     log("coq make %s: rc=%d %.1fs (%.1fs incl. locks)" % (" ".join(targets)[:120], rc, dt, time.time() - t0))
     return rc == 0, so + se
 
